@@ -384,11 +384,17 @@ func mkExec(s scen) *mc.Exec {
 					byKey[c.key] = append(byKey[c.key], c)
 				}
 			}
+			var keys []string
+			for k := range byKey {
+				keys = append(keys, k)
+			}
+			sort.Strings(keys) // deterministic report
 			for i, sr := range subs {
 				if sr.kind != 'p' {
 					continue
 				}
-				for key, cs := range byKey {
+				for _, key := range keys {
+					cs := byKey[key]
 					// the calls no other call for the key followed in real time
 					var last []*callRec
 					for _, c := range cs {
